@@ -736,6 +736,18 @@ def splice_fn(repo, file, item_path, sections, trait=None, nth=0, opts=(), canar
                 cap_src = ''.join(t.text for t in toks[body_ci[c0]:body_ci[c1] + 1])
                 text = text.replace('$%d' % n, cap_src)
             ed.replace(a_idx, b_idx, text)
+            if toks[a_idx].text in ('debug_assert', 'debug_assert_eq', 'debug_assert_ne') and text.startswith('proof {') and 'assert(' in text \
+                    and 'assume(' not in text:
+                # the function's own debug assertion written as a proof obligation: checked, not dropped and not assumed
+                rules['X7-debug_assert_proved'] = rules.get('X7-debug_assert_proved', 0) + 1
+                pre = '%s:%d %s' % (file, toks[a_idx].line, toks[a_idx].text)
+                gone = [d for d in dropped if d.startswith(pre)]
+                for d in gone:
+                    dropped.remove(d)
+                    rules['X1b-debug_assert'] = rules.get('X1b-debug_assert', 0) - 1
+                if rules.get('X1b-debug_assert') == 0:
+                    del rules['X1b-debug_assert']
+                continue
             rules['X7-replace'] = rules.get('X7-replace', 0) + 1
             dropped.append('%s:%d statement replaced by an assumed environment call (X7): %s' % (
                 file, toks[a_idx].line, ' '.join(sections[rk].split())[:300]))
